@@ -1,6 +1,7 @@
 package lzwork
 
 import (
+	"bufio"
 	"bytes"
 	"errors"
 	"fmt"
@@ -221,8 +222,12 @@ type ReadResult struct {
 	ExtraNilErr int    // ExtraReads that returned (0, nil)
 	Closed      bool   // Close was called
 	CloseErr    error
+	ClosedTwice bool  // Close was called a second time (a third of the runs)
+	Close2Err   error // what the second Close returned
 	Panic       *vrt.Violation
 	PanicIn     string // NewReader | Read | Close
+	Style       string // copy-style plans: how the bytes behind the head were taken
+	GrowMax     int    // copy-style plans: the largest reservation the Reader asked its destination for (information)
 	Spun        bool   // the call burnt SpinCPU of CPU time without returning (worker must be retired)
 	Abandoned   bool   // the call did not return within SpinWall without burning that CPU (inconclusive)
 }
@@ -260,9 +265,6 @@ func decompressRaw(stream []byte, crc bool, src Source, plan ReadPlan, lim Limit
 		return res
 	}
 	stage = "Read"
-	size := plan.Sizer()
-	var buf []byte
-	zero := 0
 	keep := func(p []byte) {
 		if lim.Keep == 0 {
 			res.Out = append(res.Out, p...)
@@ -270,7 +272,57 @@ func decompressRaw(stream []byte, crc bool, src Source, plan ReadPlan, lim Limit
 			res.Out = append(res.Out, p[:min(room, len(p))]...)
 		}
 	}
+	copying := plan.CopyStyle() && lim.StopAfter < 0
+	if plan.CopyStyle() && !copying {
+		plan = ReadPlan{Kind: "prng", Seed: plan.Seed}
+	}
+	var head int64 = -1 // copy styles: Read calls up to this many bytes, the rest through io.Copy / bufio
+	var hr *rand.Rand
+	if copying {
+		hr = vrt.Rand(plan.Seed, "copy-head")
+		head = int64(vrt.Pick(hr, []int{0, 1, 2, 1 + hr.Intn(64), 1 + hr.Intn(200), 1 + hr.Intn(5000)}))
+		if plan.Kind == "copy" {
+			head = 0
+		}
+		plan = ReadPlan{Kind: "prng", Seed: plan.Seed}
+	}
+	size := plan.Sizer()
+	var buf []byte
+	zero := 0
 	for {
+		if copying && res.Total >= head {
+			// the rest of the stream is taken the way io.Copy takes it (through the Reader's WriteTo when it has one,
+			// else through Read calls with io.Copy's own buffer), directly or behind a bufio.Reader
+			dst := &copyDst{keep: keep, max: lim.MaxBytes, base: res.Total}
+			var src io.Reader = rd
+			if plan2 := hr.Intn(3); plan2 == 0 {
+				br := bufio.NewReaderSize(rd, 16+hr.Intn(5000))
+				line, _ := br.ReadSlice('\n') // whatever came (also on ErrBufferFull / EOF) has been consumed
+				res.Total += int64(len(line))
+				keep(line)
+				dst.base = res.Total
+				src = br
+				res.Style = "bufio-line-then-copy"
+			} else {
+				res.Style = "read-head-then-copy"
+				if head == 0 {
+					res.Style = "copy"
+				}
+			}
+			n, err := io.Copy(dst, src)
+			res.Reads++
+			res.Total += n
+			res.GrowMax = dst.growMax
+			switch {
+			case err == errRunaway:
+				res.Runaway = true
+			case err != nil:
+				res.ReadErr = err
+			default:
+				res.ReadErr = io.EOF // io.Copy swallows the end-of-stream result
+			}
+			break
+		}
 		if lim.StopAfter >= 0 && res.Total >= lim.StopAfter {
 			res.Stopped = true
 			break
@@ -332,8 +384,90 @@ func decompressRaw(stream []byte, crc bool, src Source, plan ReadPlan, lim Limit
 	stage = "Close"
 	res.CloseErr = rd.Close()
 	res.Closed = true
+	if (len(stream)+int(res.Total))%3 == 0 {
+		// the usual "defer r.Close()" next to an explicit, error-checked r.Close(): a Reader closed twice
+		res.Close2Err = rd.Close()
+		res.ClosedTwice = true
+	}
 	return res
 }
+
+// Interleave keeps two Writers and one Reader alive at the same time in ONE goroutine and feeds them in turns
+// (a program that compresses two messages while it decompresses a third). It returns the two compressed
+// streams, the decompressed bytes, the Reader's results and a recovered panic, if any.
+func Interleave(in1, in2, stream3 []byte, crc bool, seed int64) (out1, out2, dec3 []byte, readErr, closeErr error, pan *vrt.Violation, spun, abandoned bool) {
+	returned, sp := vrt.CPUGuard(func() { out1, out2, dec3, readErr, closeErr, pan = interleaveRaw(in1, in2, stream3, crc, seed) }, SpinCPU, SpinWall)
+	if !returned {
+		return nil, nil, nil, nil, nil, nil, sp, !sp
+	}
+	return
+}
+
+func interleaveRaw(in1, in2, stream3 []byte, crc bool, seed int64) (out1, out2, dec3 []byte, readErr, closeErr error, pan *vrt.Violation) {
+	defer func() {
+		if r := recover(); r != nil {
+			v := vrt.PanicViolation(r, debug.Stack())
+			pan = &v
+		}
+	}()
+	r := vrt.Rand(seed, "interleave")
+	var b1, b2 bytes.Buffer
+	w1, w2 := lzhuf.NewWriter(&b1, crc), lzhuf.NewWriter(&b2, crc)
+	rd, err := lzhuf.NewReader(bytes.NewReader(stream3), crc)
+	if err != nil {
+		return nil, nil, nil, err, nil, nil
+	}
+	p1, p2 := in1, in2
+	reading := true
+	buf := make([]byte, 512)
+	for len(p1) > 0 || len(p2) > 0 || reading {
+		if k := min(len(p1), 1+r.Intn(300)); k > 0 {
+			w1.Write(p1[:k])
+			p1 = p1[k:]
+		}
+		if reading {
+			n, err := rd.Read(buf[:1+r.Intn(len(buf))])
+			dec3 = append(dec3, buf[:n]...)
+			if err != nil {
+				reading = false
+				if err != io.EOF {
+					readErr = err
+				}
+			}
+		}
+		if k := min(len(p2), 1+r.Intn(300)); k > 0 {
+			w2.Write(p2[:k])
+			p2 = p2[k:]
+		}
+	}
+	w2.Close()
+	closeErr = rd.Close()
+	w1.Close()
+	return b1.Bytes(), b2.Bytes(), dec3, readErr, closeErr, nil
+}
+
+var errRunaway = errors.New("lzwork: output limit of the harness reached")
+
+// copyDst is the destination of the copy-style plans: it keeps the bytes like the Read loop does, stops a
+// runaway stream, and offers (and records) the optional Grow method buffers have.
+type copyDst struct {
+	keep    func([]byte)
+	max     int64
+	base    int64
+	n       int64
+	growMax int
+}
+
+func (d *copyDst) Write(p []byte) (int, error) {
+	d.keep(p)
+	d.n += int64(len(p))
+	if d.max > 0 && d.base+d.n > d.max {
+		return len(p), errRunaway
+	}
+	return len(p), nil
+}
+
+func (d *copyDst) Grow(n int) { d.growMax = max(d.growMax, n) }
 
 // Hex renders at most n bytes of b for violation details.
 func Hex(b []byte, n int) string {
